@@ -144,7 +144,84 @@ def run(prop, tier, seed, replay=None):
 
 
 def fault_oracle(case, obs, diag):
-    return []
+    """C16 on a real trace (fault-injecting symbols raise Boom):
+    (a) every Boom reaches the emit caller; (b) the node whose function raised behaves afterwards as if
+    the failing element had not been offered to it; (c) the failed element's callback never fires."""
+    from syncoracle import ref_outputs, Flush
+    from symbols import val_from_json
+    nodes = case["nodes"]
+    N = len(nodes)
+    findings = []
+    downs = {i: [] for i in range(N)}
+    for d, sp in enumerate(nodes):
+        for u in sp.get("ups", []):
+            downs[u].append(d)
+    arrivals = {i: [] for i in range(N)}
+    edges = {}
+    tainted = set()          # nodes that were callers on the stack of some failure (their own processing was cut short)
+    failed_refs = {}         # rc id -> event index
+    prev_booms = 0
+    for ei, (ev, o) in enumerate(zip(case["events"], obs)):
+        boomed = o["booms"] > prev_booms
+        prev_booms = o["booms"]
+        if boomed and not o["raised"]:
+            findings.append(("C16", "C16/exception-swallowed", "event %d: a user function raised but emit returned normally" % ei))
+        if o["raised"] and o.get("exc") not in ("Boom",):
+            findings.append(("C16", "C16/other-exception/%s" % o.get("exc"), "event %d raised %s" % (ei, o.get("exc"))))
+        if ev[0] == "flush":
+            arrivals[ev[1]].append(Flush)
+        fail_entry = o["calls"][-1] if (o["raised"] and o["calls"]) else None
+        stack = []
+        for ci, (dep, src, dst, x, mids) in enumerate(o["calls"]):
+            stack = stack[:dep] + [(src, dst)]
+            is_fail = fail_entry is not None and ci == len(o["calls"]) - 1
+            port = nodes[dst].get("ups", []).index(src) if src in nodes[dst].get("ups", []) else -1
+            if not is_fail:
+                arrivals[dst].append((port, x, tuple(mids)))
+            edges.setdefault((src, dst), []).append((x, tuple(mids)))
+        if fail_entry is not None:
+            for (src, dst) in stack[:-1]:
+                tainted.add(dst)
+            tainted.add(stack[0][0]) if stack and nodes[stack[0][0]].get("ups") else None
+            for (i, r) in fail_entry[4]:
+                if r:
+                    failed_refs.setdefault(i, ei)
+            if ev[0] == "emit":
+                for (i, r) in ev[3]:
+                    if r:
+                        failed_refs.setdefault(i, ei)
+        for r, e0 in failed_refs.items():
+            if r in o["fired"]:
+                findings.append(("C16", "C16/callback-for-failed", "counter %d belongs to the element that failed in event %d but its callback fired (seen after event %d)" % (r, e0, ei)))
+            elif o["counts"][r] < 1:
+                findings.append(("C16", "C16/count-zero-for-failed", "counter %d of the element that failed in event %d has count %d" % (r, e0, o["counts"][r])))
+        if findings:
+            return findings
+    # (b) state intact: nodes that raised themselves (never as callers of a failing cascade) behave as the
+    #     list-level meaning of their arrivals WITHOUT the failed ones
+    for u, sp in enumerate(nodes):
+        if u in tainted or not sp.get("ups"):
+            continue
+        try:
+            exp_out, _ = ref_outputs(sp, arrivals[u], len(sp.get("ups", [])))
+        except Exception:
+            continue
+        if sp["k"] == "sink":
+            got = diag["sinkdata"].get(u, [])
+            exp = [a[1] for a in arrivals[u] if a is not Flush]
+            if got != exp:
+                findings.append(("C16", "C16/state-after-failure/sink", "sink %d recorded %r, non-failing arrivals are %r" % (u, got[:10], exp[:10])))
+            continue
+        for d in downs[u]:
+            if nodes[d]["k"] == "slice" and nodes[d]["end"] is not None:
+                continue
+            got = [g[0] for g in edges.get((u, d), [])]
+            exp = [e[0] for e in exp_out]
+            if got != exp:
+                findings.append(("C16", "C16/state-after-failure/%s" % sp["k"],
+                                 "node %d (%s) sent %r to %d; as if failing elements had not been offered: %r" % (u, sp["k"], got[:10], d, exp[:10])))
+                break
+    return findings
 
 
 if __name__ == "__main__":
